@@ -316,6 +316,25 @@ impl Spec {
     go(self, false)
   }
 
+  /// The same tree with every Cached node replaced by its inner source.
+  pub fn without_cached(&self) -> Spec {
+    match self {
+      Spec::Concat { children, how } => Spec::Concat {
+        children: children.iter().map(|c| c.without_cached()).collect(),
+        how: *how,
+      },
+      Spec::Replace { inner, ops } => Spec::Replace {
+        inner: Box::new(inner.without_cached()),
+        ops: ops.clone(),
+      },
+      Spec::Cached { inner } => inner.without_cached(),
+      Spec::Boxed { inner } => Spec::Boxed {
+        inner: Box::new(inner.without_cached()),
+      },
+      leaf => leaf.clone(),
+    }
+  }
+
   pub fn has_cached_under_replace(&self) -> bool {
     self.without_cached_under_replace() != *self
   }
